@@ -264,7 +264,13 @@ func runC02(c *fw.Ctx, idx int) fw.Result {
 		os.MkdirAll(d, 0755)
 		os.WriteFile(filepath.Join(d, "in.sam"), []byte(sf.Text), 0644)
 		os.WriteFile(filepath.Join(d, "ref.fasta"), []byte(refFasta), 0644)
-		args := []string{"sam", "toPairAlign", "-s", filepath.Join(d, "in.sam"), "-r", filepath.Join(d, "ref.fasta"), "-o", "stdout", "-t", "1"}
+		args := []string{"sam", "toPairAlign", "-r", filepath.Join(d, "ref.fasta"), "-o", "stdout", "-t", fmt.Sprint(threads)}
+		var stdin []byte
+		if idx%20 == 10 {
+			stdin = []byte(sf.Text)
+		} else {
+			args = append(args, "-s", filepath.Join(d, "in.sam"))
+		}
 		if s != -1 {
 			args = append(args, "--start", fmt.Sprint(s))
 		}
@@ -274,13 +280,9 @@ func runC02(c *fw.Ctx, idx int) fw.Result {
 		if wrap > 0 {
 			args = append(args, "--wrap", fmt.Sprint(wrap))
 		}
-		if omitIns {
-			args = append(args, "--skip-insertions")
-		}
-		if omitRef {
-			args = append(args, "--omit-reference")
-		}
-		br := fw.RunBin(c.Bin, args, nil, nil, "", 60*time.Second)
+		args = boolFlag(args, "skip-insertions", omitIns, idx%30 == 0)
+		args = boolFlag(args, "omit-reference", omitRef, idx%30 == 10)
+		br := fw.RunBin(c.Bin, args, stdin, nil, "", 60*time.Second)
 		os.RemoveAll(d)
 		res.Evals++
 		res.Count("binary_stdout_runs", 1)
